@@ -45,6 +45,9 @@ def cases(tier, rng):
                     if rng.random() < 0.3:
                         cfg['datetime'] = True
                     yield {'kind': 'mux', 'term': [['time_split', cfg, [['to_list']]]], 'items': timeline((1,) + gaps)}
+                    if closing is not None and rng.random() < 0.25:
+                        # the very first item of the key is itself a closing item
+                        yield {'kind': 'mux', 'term': [['time_split', cfg, [['to_list']]]], 'items': timeline((3,) + gaps)}
     n = {'quick': 300, 'thorough': 8000, 'search': 500}[tier]
     for _ in range(n):
         cfg = {'time': ['id'], 'active': rng.choice([None, 2, 3, 5, 0]), 'inactive': rng.choice([None, 1, 2, 3]),
